@@ -122,7 +122,20 @@ def build_task(job):
     if job.get("seed") is not None:
         kw["seed"] = job["seed"]
     if job.get("weights") is not None:
-        kw["objective_weights"] = job["weights"]
+        kw["objective_weights"] = job["weights"] if job.get("weights_initial") is None else job["weights_initial"]
+    if job.get("weights_initial") is not None:
+        # multi-step history on the task: built with other weights (same count), used, then re-weighted by assignment or by model_copy(update=…)
+        j2 = {k: v for k, v in job.items() if k not in ("weights_initial", "weights_via")}
+        j2["weights"] = job["weights_initial"]
+        t = build_task(j2)
+        try:
+            t.solve(t.initial_solution())
+        except Exception:  # noqa
+            pass
+        if job.get("weights_via") == "copy":
+            return t.model_copy(update={"objective_weights": list(job["weights"])})
+        t.objective_weights = list(job["weights"])
+        return t
     data = {}
     if job.get("_logid") is not None:
         data["logid"] = job["_logid"]
